@@ -91,6 +91,12 @@ def handle (line : String) : String :=
       let r := Pressure.sweep (strict == "1") grids cf cg kl (floatPairs vs)
       "ok " ++ showFloats [r.1, r.2.1, r.2.2]
     | _, _, _ => "bad-op"
+  | "dpp" :: rest =>
+    -- dpp grids... | planes...   (number of grid losses accumulated over the plane list: comparisons only)
+    let (gs, ps) := splitBar rest
+    match floatList gs, floatList ps with
+    | some grids, some planes => "ok " ++ toString (Pressure.gridLosses grids planes)
+    | _, _ => "bad-op"
   | "power" :: fixed :: rest =>
     -- power <0|1> avg cellLen | dz p inBundle(0/1 as float) ...
     let (hd, st) := splitBar rest
